@@ -305,8 +305,9 @@ class OpGen:
                 sels.append("__typename")
         if self.use_fragments:
             app = self.applicable_fragments(t)
-            if app and rng.random() < 0.5:
-                for name in rng.sample(app, rng.randrange(1, min(2, len(app)) + 1)):
+            many = "frag.many" in self.dirty
+            if app and rng.random() < (0.85 if many else 0.5):
+                for name in rng.sample(app, rng.randrange(1, min(4 if many else 2, len(app)) + 1)):
                     sels.append("...%s%s" % (name, self.fragment_directive()))
                     cond = self.frags[name][0]
                     if cond == t.name:
